@@ -171,8 +171,20 @@ def events(scn, trace, nm: Names) -> list[str]:
             out.append(f"EAbs {nm.key(e['key'])}")
         elif k == "merge":
             out.append(f"EMerge {nm.tid(e['id'])} {q.clist(q.cnat(f) for f in e['flows'])}")
-        elif k in ("tick_end", "started"):
-            out.append(f"ETickEnd {q.clist(tview(v, nm, icp) for v in e['snap']['tasks'])}")
+        elif k in ("tick_end", "started", "restarted"):
+            sn = e["snap"]
+            out.append(f"ETickEnd {q.clist(tview(v, nm, icp) for v in sn['tasks'])} "
+                       f"{q.clist(nm.tid(i) for i in sn['to_hold'])} {q.copt(sn['hold_point'], q.cz)}")
+        elif k == "cmd_hold":
+            out.append(f"ECmdHold {q.clist(nm.tid(i) for i in e['ids'])}")
+        elif k == "cmd_release":
+            out.append(f"ECmdRelease {q.clist(nm.tid(i) for i in e['ids'])}")
+        elif k == "cmd_hold_point":
+            out.append(f"ECmdHoldPoint {q.cz(e['point'])}")
+        elif k == "cmd_release_hold_point":
+            out.append("ECmdReleaseHoldPoint")
+        elif k == "remove_begin":
+            out.append(f"ERemoveBegin {nm.tid(e['id'])}")
         elif k == "shutdown":
             if e["reason"] == "AUTOMATIC":
                 out.append("EShutdownAuto")
